@@ -31,6 +31,10 @@ pub struct Transfer {
     /// Uri-Query values carried by every request of the transfer
     #[serde(default)]
     pub query: Vec<Vec<u8>>,
+    /// the handler's budget, so that a download without early negotiation
+    /// gets a body of the intended number of blocks
+    #[serde(default)]
+    pub budget: usize,
 }
 
 #[derive(Clone, Debug, PartialEq, Eq, Hash, Serialize, Deserialize)]
@@ -46,7 +50,15 @@ impl Transfer {
     }
     fn body_len(&self) -> usize {
         let n = self.exchanges.max(1) as usize;
-        (n - 1) * self.size() + 1 + (self.remainder as usize % self.size())
+        let mut size = self.size();
+        if !self.upload && !self.early && self.budget > 0 {
+            // the server picks the largest power of two that fits its budget
+            // (reply overhead: header, token, ETag, Content-Format; 12 reserved)
+            let overhead = 4 + self.token_len.min(8) as usize + 3 + 2 + 12;
+            let room = self.budget.saturating_sub(overhead).clamp(16, 1024);
+            size = 1usize << (usize::BITS - 1 - room.leading_zeros());
+        }
+        (n - 1) * size + 1 + (self.remainder as usize % size)
     }
     fn data(&self) -> Vec<u8> {
         body(self.body_len(), self.seed)
@@ -288,6 +300,7 @@ fn transfer(upload: bool) -> BoxedStrategy<Transfer> {
         .prop_map(move |(szx, exchanges, remainder, seed, token_len, early, vary_token_len)| Transfer {
             vary_token_len,
             query: vec![],
+            budget: 0,
             upload,
             endpoint: 1,
             method: if upload { [2u8, 3, 5, 6, 7][(seed % 5) as usize] } else { [1u8, 5, 1, 1, 2][(seed % 5) as usize] },
@@ -421,6 +434,9 @@ fn script_set(three: bool) -> BoxedStrategy<ScriptSet> {
                 s.push(b'0');
                 ts[0].path = vec![s];
             }
+            for t in ts.iter_mut() {
+                t.budget = if label.contains("long") { budget + 300 } else { budget };
+            }
             // uploads and downloads may use any method code
             ScriptSet { budget: if label.contains("long") { budget + 300 } else { budget }, transfers: ts, differ_in: label }
         })
@@ -430,7 +446,7 @@ fn script_set(three: bool) -> BoxedStrategy<ScriptSet> {
 pub fn run(ctx: &Ctx, rep: &mut Report) {
     rep.assume("the handler is driven through &mut self, so the harness owns the schedule: an interleaving is an order of whole exchanges (request in, response out)");
     rep.assume("each transfer's requests are fixed by running it alone first with an adaptive client; the application's reply is a function of the transfer and of the request it is shown");
-    let n = ctx.cases(240, 2_000);
+    let n = ctx.cases(600, 4_000);
     run_prop(
         ctx,
         rep,
@@ -440,7 +456,7 @@ pub fn run(ctx: &Ctx, rep: &mut Report) {
         || script_set(false),
         check_set,
     );
-    let n = ctx.cases(64, 600);
+    let n = ctx.cases(160, 1_200);
     run_prop(
         ctx,
         rep,
